@@ -3,6 +3,6 @@ Require Extraction.
 Require Import ExtrOcamlBasic.
 Extraction Language OCaml.
 Extraction "../ocaml/c08/model.ml" util_add util_mul util_divmod rsmapply_unused_z N.ltb N.leb
-  rsm_init rsm_apply_task rsm_run_entries rsm_prepare rsm_finish_save rsm_snapshot rsm_recover
+  rsm_init rsm_apply_task rsm_run_entries rsm_entries_to_apply rsm_set_last_applied rsm_ready_to_stream rsm_prepare rsm_finish_save rsm_snapshot rsm_recover
   rsm_open_ondisk rsm_shrink rsm_mark_imported rsm_observe_mem
   get_compaction_index get_compaction_index_wrapping ninit nstep default_req.
